@@ -20,6 +20,9 @@ CLAIMED = {
  "C15": ("effect-order path analysis over go/ssa (MUST-BEFORE Transform < case transforms < Validate < insertion, who-may-reach, per-iteration ITER)",
          "Decides that on every path of every insertion entry (single, batch; chunked goes through batch) and every cache/async valuation, Transform precedes the schema case transforms, both precede Validate, a successful Validate precedes every index/cache/pending/file insertion, no clone is taken before the transforms, failed validation returns ErrInvalidObject, and that no other exported entry can reach an accepting index insertion (Repair enumerated).",
          "Trusts go/ssa and the effect tables; hooks are recognised as invoke instructions on the Object interface.", "DESIGN.md 4 C15"),
+ "C01": ("effect-completeness path analysis over go/ssa (AT-RETURN / ITER must-effects per cache x async x file-exists valuation), error-discipline scan, who-may-write check",
+         "Decides structural necessary conditions of the CRUD refinement for all paths and all cache/async valuations: every successful write performed index insertion + cache/pending put or file write + commit; every delete (single, bulk, search) un-indexes, drops cache and pending entries, removes the file and commits; the read path caches only what it read; no storage/codec/package error is dropped; the uuid<->id maps have one owner and are written in pairs; fresh UUIDs are assigned only to objects without one. Field VALUES, JSON round trips and run-time enumeration completeness are not decided.",
+         "Trusts go/ssa, the effect tables and call-level effects standing for presence-guarded primitives; schema-table stability within one locked call.", "DESIGN.md 4 C01"),
 }
 
 NOT_BUILT = "check not built yet in this round (planned, see DESIGN.md section 4)"
